@@ -17,6 +17,133 @@ from .lang import *  # noqa
 FEATURES = set(gen.FEATURES) - {"faults"}
 
 
+# ------------------------------------------------------------------------------------------------
+# "web" programs: constants, aliases, comptime constants, types, type aliases, annotated constants
+# and (recursive) functions that refer to each other in every direction
+
+REC_KEY = "C20:web-rejected:error: circular definition, `_` has not yet been resolved"
+
+
+def rejected_key(errors):
+    msg = errors[0] if errors else "?"
+    return "C20:web-rejected:" + runner.normalise_msg(re.sub(r"`[^`]*`", "`_`", msg))[:80]
+
+
+def web_program(draw):
+    """returns (items [(name, src)], main source, expected stdout)"""
+    n = draw(st.integers(3, 9))
+    defs = []
+    consts, types, fns = {}, {}, {}   # consts: name -> (value, 'usize' | 'i64' | distinct type name)
+    out = []
+    recursive = set()
+    # listed open finding: a comptime constant that calls a recursive function is rejected ("circular definition")
+    # when the function is processed after it; while it is listed, such constants only call non-recursive functions
+    avoid_rec = any(f.get("status") == "open" and f["key"] == REC_KEY for f in core.load_findings("C20"))
+
+    def pick(keys):
+        ks = sorted(keys)
+        return ks[draw(st.integers(0, len(ks) - 1))]
+
+    def usizes():
+        return [k for k, (_, t) in consts.items() if t == "usize"]
+    for i in range(n):
+        kinds = ["const-lit", "const-lit", "distinct", "fn0"]
+        if consts:
+            kinds += ["const-alias", "const-alias"]
+        if usizes():
+            kinds += ["const-comptime", "fn", "fn", "struct-len"]
+        if [f for f in fns if not (avoid_rec and f in recursive)]:
+            kinds += ["const-comptime-call"]
+        if types:
+            kinds += ["type-alias"]
+        if any(d[0] == "distinct" for d in types.values()):
+            kinds += ["const-annotated"]
+        k = kinds[draw(st.integers(0, len(kinds) - 1))]
+        if k == "const-lit":
+            v = draw(st.integers(1, 9))
+            consts[f"K{i}"] = (v, "usize")
+            defs.append((f"K{i}", f"K{i} : usize : {v};"))
+        elif k == "const-alias":
+            j = pick(consts)
+            consts[f"K{i}"] = consts[j]
+            defs.append((f"K{i}", f"K{i} :: {j};"))
+        elif k == "const-comptime":
+            j = pick(usizes())
+            c = draw(st.integers(1, 5))
+            consts[f"K{i}"] = (consts[j][0] * 2 + c, "usize")
+            defs.append((f"K{i}", f"K{i} :: comptime {{ {j} * 2 + {c} }};"))
+        elif k == "const-comptime-call":
+            f = pick([f for f in fns if not (avoid_rec and f in recursive)])
+            a = draw(st.integers(0, 4))
+            consts[f"K{i}"] = (fns[f](a), "i64")
+            defs.append((f"K{i}", f"K{i} :: comptime {{ {f}({a}) }};"))
+        elif k == "fn0":
+            c = draw(st.integers(1, 9))
+            fns[f"f{i}"] = (lambda x, c=c: x * 3 + c)
+            defs.append((f"f{i}", f"f{i} :: (x: i64) -> i64 {{ x * 3 + {c} }}"))
+        elif k == "fn":
+            j = pick(usizes())
+            cv = consts[j][0]
+            if draw(st.booleans()):
+                fns[f"f{i}"] = (lambda x, cv=cv: cv if x <= 0 else cv + x * (x + 1) // 2)
+                recursive.add(f"f{i}")
+                defs.append((f"f{i}", f"f{i} :: (x: i64) -> i64 {{ if x <= 0 {{ i64.({j}) }} else {{ x + f{i}(x - 1) }} }}"))
+            else:
+                fns[f"f{i}"] = (lambda x, cv=cv: x * cv + 1)
+                defs.append((f"f{i}", f"f{i} :: (x: i64) -> i64 {{ x * i64.({j}) + 1 }}"))
+        elif k == "struct-len":
+            j = pick(usizes())
+            types[f"T{i}"] = ("struct", consts[j][0])
+            defs.append((f"T{i}", f"T{i} :: struct {{ a: i64, b: [{j}]u8 }};"))
+        elif k == "distinct":
+            types[f"T{i}"] = ("distinct", None)
+            defs.append((f"T{i}", f"T{i} :: distinct i64;"))
+        elif k == "type-alias":
+            j = pick(types)
+            types[f"T{i}"] = types[j]
+            defs.append((f"T{i}", f"T{i} :: {j};"))
+        else:  # a constant whose annotation names a user-defined (possibly later-defined) type
+            t = pick([t for t, d in types.items() if d[0] == "distinct"])
+            v = draw(st.integers(1, 9))
+            consts[f"K{i}"] = (v, t)
+            defs.append((f"K{i}", f"K{i} : {t} : {v};"))
+    body = []
+    for name in sorted(consts):
+        v, t = consts[name]
+        body.append(f'    printf("%ld\\n", {name});' if t == "i64" else f'    printf("%ld\\n", i64.({name}));')
+        out.append(str(v))
+    for name in sorted(fns):
+        a = draw(st.integers(0, 5))
+        body.append(f'    printf("%ld\\n", {name}({a}));')
+        out.append(str(fns[name](a)))
+    for name in sorted(types):
+        kind, ln = types[name]
+        if kind == "struct":
+            body.append(f'    v{name} : {name}; printf("%ld\\n", i64.(v{name}.b.len));')
+            out.append(str(ln))
+            if usizes():
+                u = sorted(usizes())[0]
+                body.append(f'    a{name} : [{u}]{name}; printf("%ld\\n", i64.(a{name}.len));')
+                out.append(str(consts[u][0]))
+        else:
+            body.append(f'    d{name} : {name} = {name}.(7); printf("%ld\\n", i64.(d{name}));')
+            out.append("7")
+    main_src = "main :: () {\n" + "\n".join(body) + "\n}\n"
+    return defs, main_src, "".join(o + "\n" for o in out)
+
+
+@st.composite
+def web_cases(draw, n_arr):
+    items, main_src, expected = web_program(draw)
+    arrangements = []
+    for _ in range(n_arr):
+        perm = draw(st.permutations(list(range(len(items)))))
+        nfiles = draw(st.integers(1, 3))
+        assign = [draw(st.integers(0, nfiles - 1)) for _ in items]
+        arrangements.append({"perm": list(perm), "files": assign})
+    return {"web": {"items": items, "main": main_src, "expected": expected}, "arrangements": arrangements}
+
+
 @st.composite
 def cases(draw, n_arr):
     avoid = c01.current_avoid()
@@ -32,7 +159,8 @@ def cases(draw, n_arr):
 
 
 def strategy(profile):
-    return cases(6 if profile == "thorough" else 4)
+    n_arr = 6 if "thorough" in profile else 4
+    return web_cases(n_arr) if profile.startswith("web") else cases(n_arr)
 
 
 def top_level_items(p):
@@ -54,8 +182,10 @@ FILE_NAMES = ["main", "aa", "bb"]
 
 def arrange(p, arr):
     """files {name: text} for one arrangement; main.capy always holds the prelude and main"""
-    items = top_level_items(p)
-    main_fn = fn_src(p.fn("main"))
+    return arrange_items(top_level_items(p), fn_src(p.fn("main")), arr)
+
+
+def arrange_items(items, main_fn, arr):
     where = {"main": 0, "printf": 0, "puts": 0, "putchar": 0}
     for idx, (name, _) in enumerate(items):
         where[name] = arr["files"][idx]
@@ -95,7 +225,41 @@ def outcome(o):
     return (o.kind, o.crash_key)
 
 
+def check_web(case, stats, scratch, profile):
+    w = case["web"]
+    base_files = arrange_items(w["items"], w["main"], {"perm": list(range(len(w["items"]))), "files": [0] * len(w["items"])})
+    results = []
+    kinds = sorted({re.match(r"[A-Za-z]+", n).group(0) + ("=" + ("comptime" if "comptime" in s_ else "alias" if re.match(r"\w+ :: \w+;$", s_) else "plain")) for n, s_ in w["items"]})
+    for arr in [None] + case["arrangements"]:
+        files = base_files if arr is None else arrange_items(w["items"], w["main"], arr)
+        stats.evaluations += 1
+        multi = any("#import(" in t for t in files.values())
+        stats.cls(f"web.files.{len(files)}")
+        o = runner.run_case(scratch, files)
+        replay = {"files": files, "expected": w["expected"]}
+        desc = "\n".join(f"// {n}\n{t}" for n, t in files.items())
+        if o.kind in ("timeout", "exe-timeout"):
+            stats.inconclusive += 1
+            continue
+        shape = ("multi-file" if multi else "one-file")
+        if o.kind == "crash":
+            raise Fail(o.crash_key, f"compiler crashed on a {shape} arrangement of a definitions web ({kinds})\n{o.compiler_out[-1000:]}\n--- files ---\n{desc}", replay)
+        if o.kind == "rejected":
+            raise Fail(rejected_key(o.errors), f"a valid definitions web is rejected in this arrangement: {o.errors[:3]}\n--- files ---\n{desc}", replay)
+        if o.kind != "ran" or o.signal is not None:
+            raise Fail(f"C20:web:{o.kind}", f"{o.brief()}\n--- files ---\n{desc}", replay)
+        got = o.stdout.decode("utf-8", "replace")
+        if got != w["expected"]:
+            raise Fail(f"C20:web-behaviour-differs:{shape}", f"expected {w['expected']!r}, got {got!r}\n--- files ---\n{desc}", replay)
+        results.append(multi)
+    if any(results):
+        stats.nontrivial.add(h64(json.dumps(w["items"])))
+        stats.sample({"web_items": [s_ for _, s_ in w["items"]][:8]})
+
+
 def check(case, stats, scratch, profile):
+    if "web" in case:
+        return check_web(case, stats, scratch, profile)
     p = case["program"]
     try:
         it = interp.Interp(p)
@@ -142,6 +306,17 @@ def check(case, stats, scratch, profile):
 
 
 def replay_payload(payload, scratch):
+    if "expected" in payload:
+        o = runner.run_case(scratch, payload["files"])
+        multi = any("#import(" in t for t in payload["files"].values())
+        shape = "multi-file" if multi else "one-file"
+        if o.kind == "crash":
+            return o.crash_key
+        if o.kind == "rejected":
+            return rejected_key(o.errors)
+        if o.kind != "ran" or o.signal is not None:
+            return f"C20:web:{o.kind}"
+        return None if o.stdout.decode("utf-8", "replace") == payload["expected"] else f"C20:web-behaviour-differs:{shape}"
     b = outcome(runner.run_case(scratch, payload["base"]))
     o = runner.run_case(scratch, payload["arranged"])
     if o.kind == "crash":
@@ -154,7 +329,9 @@ def replay_payload(payload, scratch):
     return None
 
 
-RULE = ("base = a generated well-typed program (C01 generator: types, consts, functions calling each other); arrangements = random permutations of the top-level definitions and random "
+RULE = ("half of the cases: a generated web of definitions (literal / alias / comptime constants, comptime constants calling functions, recursive functions, structs whose array length is a "
+        "constant, distinct types, type aliases, constants annotated with later-defined types) printed by main, with the expected output computed independently; the other half: "
+        "base = a generated well-typed program (C01 generator: types, consts, functions calling each other); arrangements = random permutations of the top-level definitions and random "
         "partitions into 1-3 files with references rewritten to `file.name` and mutual imports (cycles allowed); 4 (quick) / 6 (thorough) arrangements per program; one evaluation = one "
         "arrangement compared with the base. Non-trivial = the program has an arrangement with >= 2 files (which always contains a cross-file or forward reference); distinct by base program.")
 
@@ -170,7 +347,7 @@ def run(ctx):
         shutil.rmtree(scratch, ignore_errors=True)
         return ctx.finish(RULE, False, [])
     total = 10000 if ctx.thorough else 400
-    infra = core.hypothesis_search(ctx, "pyv.c20", total, profiles=("thorough",) if ctx.thorough else ("quick",))
+    infra = core.hypothesis_search(ctx, "pyv.c20", total, profiles=("thorough", "web-thorough") if ctx.thorough else ("quick", "web-quick"))
     scratch = core.make_scratch("C20", "kf")
     rc = ctx.finish(RULE, False, [
         "the extern prelude lives in main.capy only and is referenced as main_f.printf from other files (two files declaring the same extern is a separate, listed C06 defect)",
